@@ -425,7 +425,7 @@ def run(ctx):
     names = list(D)
     guard()
     # (a) random octets, every length 0..64, every decoder
-    per = 8 if ctx.quick else 60
+    per = 8 if ctx.quick else 400
     i = 0
     for d in names:
         for n in range(65):
@@ -438,7 +438,7 @@ def run(ctx):
                 call(ctx, d, raw, "random")
     ctx.exhaustive.append(f"{len(names)} decoder entry points x every input length 0..64 (random content)")
     # (b) every truncation point of valid units; (c) substitutions; (d) length edits
-    reps = 6 if ctx.quick else 40
+    reps = 6 if ctx.quick else 160
     for fname in fam():
         for rep in range(reps):
             i += 1
@@ -457,7 +457,7 @@ def run(ctx):
             call(ctx, d, raw, "structured")
     # cross feeding: every decoder gets complete units of every family
     for fname in fam():
-        for rep in range(1 if ctx.quick else 6):
+        for rep in range(1 if ctx.quick else 24):
             i += 1
             if not ctx.mine(i):
                 continue
